@@ -44,14 +44,16 @@ BOUNDS = {
     #             formulas are evaluated by TLC on every set it reaches)
     # full_edges: a schema is explored by TLC in full while states*ops <= this
     # part_edges: same bound for the relation core / the states around one group
-    # sim       : (behaviours, depth) of `tlc -simulate` on the full schema for
-    #             every schema that is not explored in full
+    # batch_edges: size-weighted edges (cost()) per TLC process
+    # sim       : (behaviours, max depth, edge budget) of `tlc -simulate` on the
+    #             full schema for every schema that is not explored in full (a
+    #             step evaluates all 2n edges of its source set)
     "quick": dict(go_states=200_000, go_edges=250_000, full_edges=100_000,
-                  part_edges=50_000, batch_edges=120_000, sim=(2, 10), paths=30,
-                  mc_timeout=900, parallel=4, workers=4, shards=8),
-    "thorough": dict(go_states=2_000_000, go_edges=4_000_000, full_edges=3_200_000,
-                     part_edges=600_000, batch_edges=1_500_000, sim=(10, 30), paths=300,
-                     mc_timeout=6000, parallel=4, workers=4, shards=16),
+                  part_edges=50_000, batch_edges=70_000, sim=(2, 10, 3_000), paths=30,
+                  mc_timeout=900, parallel=8, workers=2, shards=8),
+    "thorough": dict(go_states=2_000_000, go_edges=4_000_000, full_edges=2_000_000,
+                     part_edges=600_000, batch_edges=700_000, sim=(8, 30, 20_000), paths=300,
+                     mc_timeout=6000, parallel=8, workers=2, shards=16),
 }
 
 INVARIANTS = ["Inv_RequireClosed", "Inv_GroupExclusive"]
@@ -196,8 +198,11 @@ def record(rec, mode, label, callable_, max_states, max_edges=0):
 
 
 def write_records(path, records):
+    first = {}
     with open(path, "w") as f:
-        for r in records:
+        for k, r in enumerate(records):
+            # sref: the first record of the file with the same schema
+            r = dict(r, sref=first.setdefault(r["id"], k + 1))
             f.write(json.dumps(r) + "\n")
 
 
@@ -283,14 +288,20 @@ def plan(binary, d, recs, B):
     return chosen, modes, state_files
 
 
+def cost(c):
+    """TLC's cost of an edge grows with the size of the schema (index-long
+    clocks, auto candidates): weight the edge estimate by it."""
+    return c["est_edges"] * max(1.0, len(c["idx"]) / 20.0)
+
+
 def batches(chosen, limit):
     out, cur, tot = [], [], 0
-    for c in sorted(chosen, key=lambda x: -x["est_edges"]):
-        if cur and tot + c["est_edges"] > limit:
+    for c in sorted(chosen, key=lambda x: -cost(x)):
+        if cur and tot + cost(c) > limit:
             out.append(cur)
             cur, tot = [], 0
         cur.append(c)
-        tot += c["est_edges"]
+        tot += cost(c)
     if cur:
         out.append(cur)
     return out
@@ -360,43 +371,46 @@ def tlc_replay(binary, records, name, d, B, sd, emit=True, simulate=None, invari
         shutil.rmtree(td, ignore_errors=True)
 
 
-def run_mc(binary, d, chosen, B, sd, rep):
+def run_tlc_jobs(binary, d, chosen, recs, modes, B, sd):
+    """All TLC processes of the check in one pool: the exhaustive explorations
+    (batches of records) and `tlc -simulate` on every schema that is not
+    explored in full.  Returns (mc results, sim results)."""
     bs = batches(chosen, B["batch_edges"])
-    results = []
+    todo = [r for r in recs if modes[r["id"]]["mode"] not in ("full", "none")]
 
-    def one(i):
-        r = tlc_replay(binary, bs[i], "mc%d" % i, d, B, sd, workers=B["workers"])
+    def nworkers(batch):
+        # a single big record cannot be split over processes: more workers
+        c = sum(cost(x) for x in batch)
+        if c <= B["batch_edges"]:
+            return B["workers"]
+        return min(8, B["workers"] * int(-(-c // B["batch_edges"])))
+
+    def mc_one(i):
+        r = tlc_replay(binary, bs[i], "mc%d" % i, d, B, sd, workers=nworkers(bs[i]))
         if r["tlc"]["violated"] and not r["tlc"]["timed_out"]:
             # the specification itself leaves the invariant: TLC stopped; the
             # exploration is repeated without the invariants so that the
             # binding still covers every edge -- the verdict is taken from the
             # real machine's states (TraceSchemas), this is only a prediction
             r2 = tlc_replay(binary, bs[i], "mc%dn" % i, d, B, sd, invariants=(),
-                            workers=B["workers"])
+                            workers=nworkers(bs[i]))
             r2["predicted"] = r["tlc"]["violated"]
             r2["predicted_tail"] = r["tlc"]["tail"]
             return r2
         return r
 
-    with cf.ThreadPoolExecutor(max_workers=B["parallel"]) as ex:
-        for r in ex.map(one, range(len(bs))):
-            results.append(r)
-    return results
-
-
-def run_sim(binary, d, recs, modes, B, sd):
-    todo = [r for r in recs if modes[r["id"]]["mode"] not in ("full", "none")]
-    results = []
-
-    def one(i):
+    def sim_one(i):
         r = todo[i]
-        rc = record(r, "sim", "tlc -simulate num=%d depth=%d" % B["sim"], set(r["index"]), 0)
-        return tlc_replay(binary, [rc], "sim%d" % i, d, B, sd + i, simulate=B["sim"], workers=2)
+        num, depth, budget = B["sim"]
+        depth = max(4, min(depth, budget // (num * 2 * len(r["index"]))))
+        rc = record(r, "sim", "tlc -simulate num=%d depth=%d" % (num, depth), set(r["index"]), 0)
+        return tlc_replay(binary, [rc], "sim%d" % i, d, B, sd + i, simulate=(num, depth),
+                          workers=B["workers"])
 
-    with cf.ThreadPoolExecutor(max_workers=8) as ex:
-        for r in ex.map(one, range(len(todo))):
-            results.append(r)
-    return results
+    with cf.ThreadPoolExecutor(max_workers=B["parallel"]) as ex:
+        fm = [ex.submit(mc_one, i) for i in range(len(bs))]
+        fs = [ex.submit(sim_one, i) for i in range(len(todo))]
+        return [f.result() for f in fm], [f.result() for f in fs]
 
 
 # ---------------------------------------------------------------------------
@@ -497,16 +511,13 @@ def check(tier):
         chosen, modes, state_files = plan(binary, d, recs, B)
         phases["real_machine_search"] = round(time.time() - t0, 1)
         t0 = time.time()
-        mc = run_mc(binary, d, chosen, B, sd, rep)
-        phases["tlc_explore_replay"] = round(time.time() - t0, 1)
-        t0 = time.time()
-        sim = run_sim(binary, d, recs, modes, B, sd)
-        phases["tlc_simulate_replay"] = round(time.time() - t0, 1)
+        mc, sim = run_tlc_jobs(binary, d, chosen, recs, modes, B, sd)
+        phases["tlc_explore_simulate_replay"] = round(time.time() - t0, 1)
         t0 = time.time()
 
         # ---- binding 1: every edge TLC explored, executed on the real machine
         tlc_states = tlc_edges = replayed = nontrivial = 0
-        samples = []
+        samples, tlc_runs = [], []
         per_schema = {r["id"]: dict(modes[r["id"]], file=r["file"], states=len(r["index"]),
                                     names_list=r["states_var"], groups_var=r["groups_var"],
                                     completed_with=r["completed"], explorations=[])
@@ -524,6 +535,9 @@ def check(tier):
                     list(res["predicted"]), res["name"], res["predicted_tail"][-600:]))
             tlc_states += t["distinct"]
             tlc_edges += t["states"]
+            tlc_runs.append(dict(run=res["name"], wall_s=round(t["wall"], 1), generated=t["states"],
+                                 distinct=t["distinct"], records=len(res["records"]),
+                                 schemas=sorted({r["id"] for r in res["records"]})[:4]))
             for st in res["stats"]:
                 replayed += st["edge_lines"]
                 nontrivial += st["nontrivial_edges"]
@@ -601,16 +615,17 @@ def check(tier):
                     act = list(detail)
                     pos = sorted(rec["index"].index(n) + 1 for n in act)
                 ops = path_to(binary, d, rec, pos, B)
-                if ops is None:
-                    raise Inconclusive("no path found to the failing set %s of %s" % (act, sid))
-                ops = [["add" if o > 0 else "remove", rec["index"][abs(o) - 1]] for o in ops]
+                if ops is not None:
+                    ops = [["add" if o > 0 else "remove", rec["index"][abs(o) - 1]] for o in ops]
                 sig = dict(formula=f, schema=sid, active=sorted(act))
                 rep.violation(sig, dict(kind="state", property=PROP, formula=f, schema=sid,
                                         active=sorted(act), ops=ops),
                               "%s false in reachable set %s of %s; path from the empty machine: "
                               "%s; %d failing sets in this trace shard" % (
                                   f, sorted(act), sid,
-                                  " ".join("%s1(%s)" % (o.capitalize(), n) for o, n in ops),
+                                  " ".join("%s1(%s)" % (o.capitalize(), n) for o, n in ops)
+                                  if ops is not None else "(beyond the bound of the full search; "
+                                  "reached in a restricted exploration)",
                                   x["nviol"]))
             for dr in x["drift"]:
                 rep.drift.append("%s line %d: %s (%s)" % (os.path.basename(r["file"]), dr[0],
@@ -628,7 +643,7 @@ def check(tier):
             code_states_evaluated_by_tlc=go_states, path_steps_validated_by_tlc=path_edges,
             schemas_discovered=len(cands), schemas_evaluated=len(recs),
             schemas_not_evaluated=skipped,
-            schemas=per_schema,
+            schemas=per_schema, tlc_runs=tlc_runs,
             never_active_states=dead,
             rule="cases = every exported schema variable found by the go/parser scan; per schema "
                  "every edge (active set, Add1/Remove1 of a callable state) TLC explores from the "
@@ -670,6 +685,8 @@ def replay(path):
         with open(tp, "w") as f:
             f.write(schema_line(rec) + "\n")
             if obj["kind"] == "state":
+                if obj.get("ops") is None:
+                    raise Inconclusive("the violation was stored without a path")
                 r = record(rec, "full", "replay", set(rec["index"]), 0)
                 ip = os.path.join(d, "in.ndjson")
                 write_records(ip, [r])
